@@ -88,7 +88,121 @@ def _find_assign(tree, name):
         if isinstance(node, ast.Assign) and len(node.targets) == 1 and isinstance(node.targets[0], ast.Name) \
                 and node.targets[0].id == name:
             return node.value
+        if isinstance(node, ast.AnnAssign) and isinstance(node.target, ast.Name) and node.target.id == name and node.value is not None:
+            return node.value                     # a type annotation does not change the value
     raise ValueError(f"assignment to {name} not found")
+
+
+def _nodes(root):
+    """ast.walk without the subtrees of `assert` statements (added invariants are not facts of the format)."""
+    todo = [root]
+    while todo:
+        n = todo.pop(0)
+        yield n
+        for c in ast.iter_child_nodes(n):
+            if not isinstance(c, ast.Assert):
+                todo.append(c)
+
+
+def _assign_pairs(func):
+    """(target name, value) of every simple assignment, annotated or not, in source order."""
+    out = []
+    for n in _nodes(func):
+        if isinstance(n, ast.Assign) and len(n.targets) == 1 and isinstance(n.targets[0], ast.Name):
+            out.append((n.lineno, n.targets[0].id, n.value))
+        elif isinstance(n, ast.AnnAssign) and isinstance(n.target, ast.Name) and n.value is not None:
+            out.append((n.lineno, n.target.id, n.value))
+    return [(a, b) for _, a, b in sorted(out, key=lambda t: t[0])]
+
+
+def _case_callee(func, literal):
+    """`case "<literal>": return F(...)` in a match statement of `func` -> 'F' (the last such case)."""
+    names = []
+    for n in _nodes(func):
+        if isinstance(n, ast.match_case) and isinstance(n.pattern, ast.MatchValue) and isinstance(n.pattern.value, ast.Constant) \
+                and n.pattern.value.value == literal:
+            for r in ast.walk(n):
+                if isinstance(r, ast.Return) and isinstance(r.value, ast.Call) and isinstance(r.value.func, ast.Name):
+                    names.append(r.value.func.id)
+    if not names:
+        raise ValueError(f"{func.name}: no `case {literal!r}: return f(...)`")
+    return names[-1]
+
+
+def _private_calls(func):
+    """Names of module-private functions (leading underscore) called in `func`, in source order, without repetition."""
+    out = []
+    for n in sorted((x for x in _nodes(func) if isinstance(x, ast.Call) and isinstance(x.func, ast.Name) and x.func.id.startswith("_")),
+                    key=lambda x: (x.lineno, x.col_offset)):
+        if n.func.id not in out:
+            out.append(n.func.id)
+    return out
+
+
+def _fstringish(node, env=()):
+    return isinstance(node, ast.JoinedStr) or (isinstance(node, ast.Name) and node.id in env) or \
+        (isinstance(node, ast.BinOp) and isinstance(node.op, (ast.Add, ast.Mult)) and (_fstringish(node.left, env) or _fstringish(node.right, env)))
+
+
+def _writer_parts(func, counts_marker):
+    """The pieces of a CTAB writer found by what they are: the counts-line f-string (contains `counts_marker`), the two list
+    comprehensions of f-strings (atom lines, then bond lines), and the local names that hold them."""
+    counts = [(nm, v) for nm, v in _assign_pairs(func) if _fstringish(v) or isinstance(v, ast.JoinedStr)]
+    counts = [(nm, v) for nm, v in counts if any(isinstance(c, ast.Constant) and isinstance(c.value, str) and counts_marker in c.value
+                                                  for c in ast.walk(v))]
+    env = {nm: v for nm, v in _assign_pairs(func) if _fstringish(v)}
+    comps = [(nm, v) for nm, v in _assign_pairs(func) if isinstance(v, ast.ListComp) and _fstringish(v.elt, env)]
+    if len(counts) != 1 or len(comps) != 2:
+        raise ValueError(f"{func.name}: counts line / atom lines / bond lines not found ({len(counts)}, {len(comps)})")
+    return {"counts": counts[0][1], "atoms": comps[0][1].elt, "bonds": comps[1][1].elt, "env": env,
+            "roles": {counts[0][0]: "counts", comps[0][0]: "atoms", comps[1][0]: "bonds"}}
+
+
+def _digit_guard(func, tree=None):
+    """`n = number_of_integer_digits(...)` ... `if n > K` -> (K, line number in `func`); the local's name does not matter, and the
+    guard may live in a module-private helper that `func` calls (then the line of that call counts)."""
+    def direct(g):
+        vars_ = [nm for nm, v in _assign_pairs(g) if isinstance(v, ast.Call) and getattr(v.func, "id", "") == "number_of_integer_digits"]
+        return [n for n in _nodes(g) if isinstance(n, ast.Compare) and isinstance(n.left, ast.Name) and n.left.id in vars_
+                and isinstance(n.ops[0], ast.Gt) and isinstance(n.comparators[0], ast.Constant)]
+    hits = [(n.comparators[0].value, n.lineno) for n in direct(func)]
+    if not hits and tree is not None:
+        for call in sorted((c for c in _nodes(func) if isinstance(c, ast.Call) and isinstance(c.func, ast.Name) and c.func.id.startswith("_")),
+                           key=lambda c: c.lineno):
+            for g in tree.body:
+                if isinstance(g, ast.FunctionDef) and g.name == call.func.id:
+                    hits += [(n.comparators[0].value, call.lineno) for n in direct(g)]
+    if len(hits) != 1:
+        raise ValueError(f"{func.name}: coordinate digit guard not found")
+    return hits[0]
+
+
+def _module_value(tree, name):
+    """Literal value of a module-level constant (plain or annotated assignment)."""
+    for n in tree.body:
+        if isinstance(n, ast.Assign) and len(n.targets) == 1 and isinstance(n.targets[0], ast.Name) and n.targets[0].id == name:
+            return ast.literal_eval(n.value)
+        if isinstance(n, ast.AnnAssign) and isinstance(n.target, ast.Name) and n.target.id == name and n.value is not None:
+            return ast.literal_eval(n.value)
+    raise ValueError(f"module constant {name} not found")
+
+
+def _dicts_of(tree, key_kind, val_kind):
+    """Module-level dict literals whose keys / values are `BondType.X` ('bt') or `Chem.BondType.X` ('rd')."""
+    def kind(node):
+        try:
+            _, chem = _attr_name(node, "BondType")
+            return "rd" if chem else "bt"
+        except ValueError:
+            return None
+    out = []
+    for n in tree.body:
+        v = n.value if isinstance(n, (ast.Assign, ast.AnnAssign)) else None
+        if isinstance(v, ast.Dict) and v.keys and all(kind(k) == key_kind for k in v.keys) and all(kind(x) == val_kind for x in v.values):
+            out.append(v)
+    if len(out) != 1:
+        raise ValueError(f"expected exactly one {key_kind}->{val_kind} bond type table, found {len(out)}")
+    return out[0]
 
 
 def _find_func(tree, name):
@@ -107,11 +221,11 @@ def _attr_name(node, base):
     raise ValueError(f"expected {base}.<member>, got {ast.dump(node)[:80]}")
 
 
-def _slices_of(func, var):
-    """All `var[a:b]` constant slices in a function, in source order (deduplicated)."""
+def _slices_of(func, var=None):
+    """All `x[a:b]` constant slices of a plain name in a function (any name unless `var` is given), in source order (deduplicated)."""
     out = []
-    for node in ast.walk(func):
-        if isinstance(node, ast.Subscript) and isinstance(node.value, ast.Name) and node.value.id == var \
+    for node in _nodes(func):
+        if isinstance(node, ast.Subscript) and isinstance(node.value, ast.Name) and (var is None or node.value.id == var) \
                 and isinstance(node.slice, ast.Slice):
             lo, hi = node.slice.lower, node.slice.upper
             if isinstance(lo, ast.Constant) and isinstance(hi, ast.Constant):
@@ -143,16 +257,20 @@ def _format_widths(joined):
     return ws
 
 
-def _flatten_fstring(node):
-    """`f"a" f"b" + f"c" * 10` -> list of (parts, repeat)."""
+def _flatten_fstring(node, env=None):
+    """`f"a" f"b" + f"c" * 10` -> list of (parts, repeat); a plain name stands for the f-string expression it was bound to in
+    the same function (`env`: a hoisted invariant part)."""
+    env = env or {}
     if isinstance(node, ast.JoinedStr):
         return [(node.values, 1)]
     if isinstance(node, ast.BinOp) and isinstance(node.op, ast.Add):
-        return _flatten_fstring(node.left) + _flatten_fstring(node.right)
+        return _flatten_fstring(node.left, env) + _flatten_fstring(node.right, env)
     if isinstance(node, ast.BinOp) and isinstance(node.op, ast.Mult) and isinstance(node.right, ast.Constant):
-        return [(p, r * node.right.value) for p, r in _flatten_fstring(node.left)]
+        return [(p, r * node.right.value) for p, r in _flatten_fstring(node.left, env)]
     if isinstance(node, ast.Constant) and isinstance(node.value, str):
         return [([node], 1)]
+    if isinstance(node, ast.Name) and node.id in env:
+        return _flatten_fstring(env[node.id], {k: v for k, v in env.items() if k != node.id})
     raise ValueError("unexpected expression in line template")
 
 
@@ -194,14 +312,21 @@ def _method(cls, name):
     raise ValueError(f"method {cls.name}.{name} not found")
 
 
-def _raises(func):
-    """Exception class names raised in a function, in source order (nested functions excluded)."""
+def _raises(func, tree=None, keep=()):
+    """Exception class names raised in a function, in source order.  With `tree`: the raises of module-private helpers called by
+    the function are inserted at the call (an extracted helper does not change which errors are raised, nor their order);
+    helpers named in `keep` have their own row and are not inlined."""
     out = []
-    for node in ast.walk(func):
+    for node in _nodes(func):
         if isinstance(node, ast.Raise) and node.exc is not None:
             exc = node.exc.func if isinstance(node.exc, ast.Call) else node.exc
-            out.append((node.lineno, node.col_offset, exc.id if isinstance(exc, ast.Name) else ast.unparse(exc)))
-    return [n for _, _, n in sorted(out)]
+            out.append((node.lineno, node.col_offset, [exc.id if isinstance(exc, ast.Name) else ast.unparse(exc)]))
+        elif tree is not None and isinstance(node, ast.Call) and isinstance(node.func, ast.Name) and node.func.id.startswith("_") \
+                and node.func.id not in keep and node.func.id != func.name:
+            for g in tree.body:
+                if isinstance(g, ast.FunctionDef) and g.name == node.func.id:
+                    out.append((node.lineno, node.col_offset, _raises(g)))
+    return [n for _, _, ns in sorted(out, key=lambda t: (t[0], t[1])) for n in ns]
 
 
 def _defaults(func, skip_self=True):
@@ -218,10 +343,10 @@ def _defaults(func, skip_self=True):
     return out
 
 
-def _fstring_shape(node):
+def _fstring_shape(node, env=None):
     """An f-string (or implicit concatenation / + of them) as a list of pieces: ('lit', text) | ('fmt', spec, kind)."""
     out = []
-    for parts, rep in _flatten_fstring(node):
+    for parts, rep in _flatten_fstring(node, env):
         one = []
         for part in parts:
             if isinstance(part, ast.Constant):
@@ -241,7 +366,7 @@ def _fstring_shape(node):
                 elif isinstance(val, ast.BinOp) and isinstance(val.op, ast.Add) and isinstance(val.right, ast.Constant):
                     kind = "plus:" + repr(val.right.value)
                 elif isinstance(val, ast.Call) and isinstance(val.func, ast.Name):
-                    kind = "call:" + val.func.id
+                    kind = "call:" + ("private" if val.func.id.startswith("_") else val.func.id)
                 else:
                     kind = "value"
                 one.append(("fmt", spec, kind))
@@ -294,11 +419,11 @@ def _str_calls(func, method):
     return [t for _, _, t in sorted(out)]
 
 
-def _open_slices(func, var):
-    """`var[k:]` lower bounds in source order."""
+def _open_slices(func, exclude=()):
+    """`x[k:]` lower bounds of plain names (not in `exclude`) in source order."""
     out = []
-    for node in ast.walk(func):
-        if isinstance(node, ast.Subscript) and isinstance(node.value, ast.Name) and node.value.id == var and isinstance(node.slice, ast.Slice) \
+    for node in _nodes(func):
+        if isinstance(node, ast.Subscript) and isinstance(node.value, ast.Name) and node.value.id not in exclude and isinstance(node.slice, ast.Slice) \
                 and node.slice.upper is None and isinstance(node.slice.lower, ast.Constant):
             out.append((node.lineno, node.col_offset, node.slice.lower.value))
     return [k for _, _, k in sorted(out)]
@@ -323,17 +448,18 @@ def _gen_more(base):
         L.append(f"/-- {doc} -/")
         L.append(f"def {name} : {typ} := {val}")
 
-    w2, w3 = _find_func(ctab, "_write_structure_to_ctab_v2000"), _find_func(ctab, "_write_structure_to_ctab_v3000")
-    r2, r3 = _find_func(ctab, "_read_structure_from_ctab_v2000"), _find_func(ctab, "_read_structure_from_ctab_v3000")
     wtop, rtop = _find_func(ctab, "write_structure_to_ctab"), _find_func(ctab, "read_structure_from_ctab")
+    w2, w3 = _find_func(ctab, _case_callee(wtop, "V2000")), _find_func(ctab, _case_callee(wtop, "V3000"))
+    r2, r3 = _find_func(ctab, _case_callee(rtop, "V2000")), _find_func(ctab, _case_callee(rtop, "V3000"))
+    p2, p3 = _writer_parts(w2, "V2000"), _writer_parts(w3, "COUNTS")
     T3 = "List (String × String × String)"
     emit("ctab.py `V2000_COMPATIBILITY_LINE`", "compatLine", "String", _lq(ast.literal_eval(_find_assign(ctab, "V2000_COMPATIBILITY_LINE"))))
-    emit("V2000 counts line f-string: (lit|fmt, text|spec, kind of the formatted value)", "countsLineShape", T3, _shape_lean(_fstring_shape(_assigned(w2, "counts_line"))))
-    emit("V2000 atom line f-string", "atomLineShape", T3, _shape_lean(_fstring_shape(_assigned(w2, "atom_lines").elt)))
-    emit("V2000 bond line f-string", "bondLineShape", T3, _shape_lean(_fstring_shape(_assigned(w2, "bond_lines").elt)))
+    emit("V2000 counts line f-string: (lit|fmt, text|spec, kind of the formatted value)", "countsLineShape", T3, _shape_lean(_fstring_shape(p2["counts"], p2["env"])))
+    emit("V2000 atom line f-string", "atomLineShape", T3, _shape_lean(_fstring_shape(p2["atoms"], p2["env"])))
+    emit("V2000 bond line f-string", "bondLineShape", T3, _shape_lean(_fstring_shape(p2["bonds"], p2["env"])))
     # charge line: the argument of charge_lines.append(...)
-    app = [n for n in ast.walk(w2) if isinstance(n, ast.Call) and isinstance(n.func, ast.Attribute) and n.func.attr == "append"
-           and isinstance(n.func.value, ast.Name) and n.func.value.id == "charge_lines"]
+    app = [n for n in _nodes(w2) if isinstance(n, ast.Call) and isinstance(n.func, ast.Attribute) and n.func.attr == "append"
+           and isinstance(n.func.value, ast.Name) and n.args and _fstringish(n.args[0])]
     if len(app) != 1 or not (isinstance(app[0].args[0], ast.BinOp) and isinstance(app[0].args[0].op, ast.Add)):
         raise ValueError("ctab.py: `charge_lines.append(f\"M  CHG...\" + \"\".join(...))` not found")
     head, tail = app[0].args[0].left, app[0].args[0].right
@@ -342,27 +468,40 @@ def _gen_more(base):
         raise ValueError("ctab.py: charge entries are not joined with ''")
     emit("`M  CHG` line head f-string", "chargeHeadShape", T3, _shape_lean(_fstring_shape(head)))
     emit("one `M  CHG` entry f-string", "chargeEntryShape", T3, _shape_lean(_fstring_shape(tail.args[0].elt)))
+    roles2 = dict(p2["roles"], **{app[0].func.value.id: "charges"})
+
+    def by_role(items, roles):
+        return [("role:" + roles[i[5:]]) if i.startswith("name:") and i[5:] in roles else i for i in items]
     ret2 = [n for n in ast.walk(w2) if isinstance(n, ast.Return)]
-    emit("order of the line groups returned by the V2000 writer", "v2000LineOrder", "List String", _lstrs(_sum_items(ret2[-1].value)))
-    emit("V3000 counts line f-string", "v3000CountsShape", T3, _shape_lean(_fstring_shape(_assigned(w3, "counts_line"))))
-    emit("V3000 atom line f-string", "v3000AtomShape", T3, _shape_lean(_fstring_shape(_assigned(w3, "atom_lines").elt)))
-    emit("V3000 bond line f-string", "v3000BondShape", T3, _shape_lean(_fstring_shape(_assigned(w3, "bond_lines").elt)))
+    emit("order of the line groups returned by the V2000 writer (locals named by what they hold)", "v2000LineOrder", "List String",
+         _lstrs(by_role(_sum_items(ret2[-1].value), roles2)))
+    emit("V3000 counts line f-string", "v3000CountsShape", T3, _shape_lean(_fstring_shape(p3["counts"], p3["env"])))
+    emit("V3000 atom line f-string", "v3000AtomShape", T3, _shape_lean(_fstring_shape(p3["atoms"], p3["env"])))
+    emit("V3000 bond line f-string", "v3000BondShape", T3, _shape_lean(_fstring_shape(p3["bonds"], p3["env"])))
     # lines = (["BEGIN CTAB"] + ...); lines = ["M  V30 " + line for line in lines]; return [COMPAT] + lines + ["M  END"]
-    lines_assigns = [n.value for n in ast.walk(w3) if isinstance(n, ast.Assign) and isinstance(n.targets[0], ast.Name) and n.targets[0].id == "lines"]
-    skeleton = [v for v in lines_assigns if isinstance(v, ast.BinOp)]
-    prefixed = [v for v in lines_assigns if isinstance(v, ast.ListComp)]
-    if len(skeleton) != 1 or len(prefixed) != 1 or not (isinstance(prefixed[0].elt, ast.BinOp) and isinstance(prefixed[0].elt.left, ast.Constant)):
+    pairs3 = _assign_pairs(w3)
+    skeleton = [(nm, v) for nm, v in pairs3 if isinstance(v, ast.BinOp) and isinstance(v.op, ast.Add) and not _fstringish(v)
+                and any(isinstance(c, ast.List) for c in ast.walk(v))]
+    prefixed = [(nm, v) for nm, v in pairs3 if isinstance(v, ast.ListComp) and isinstance(v.elt, ast.BinOp) and isinstance(v.elt.left, ast.Constant)]
+    if len(skeleton) != 1 or len(prefixed) != 1:
         raise ValueError("ctab.py: V3000 line skeleton / `M  V30 ` prefix not found")
-    emit("V3000 block skeleton", "v3000Skeleton", "List String", _lstrs(_sum_items(skeleton[0])))
+    roles3 = dict(p3["roles"], **{skeleton[0][0]: "lines", prefixed[0][0]: "lines"})
+    skeleton, prefixed = [skeleton[0][1]], [prefixed[0][1]]
+    emit("V3000 block skeleton", "v3000Skeleton", "List String", _lstrs(by_role(_sum_items(skeleton[0]), roles3)))
     emit("prefix of every V3000 line", "v30Prefix", "String", _lq(prefixed[0].elt.left.value))
     ret3 = [n for n in ast.walk(w3) if isinstance(n, ast.Return)]
-    emit("what the V3000 writer returns", "v3000Return", "List String", _lstrs(_sum_items(ret3[-1].value)))
-    tp = _find_func(ctab, "_to_property")
+    emit("what the V3000 writer returns", "v3000Return", "List String", _lstrs(by_role(_sum_items(ret3[-1].value), roles3)))
+    # the two private helpers of the V3000 atom line, in the order they are used: quoting, charge property
+    helpers3 = [x.value.func.id for parts_, _ in _flatten_fstring(p3["atoms"], p3["env"]) for x in parts_ if isinstance(x, ast.FormattedValue)
+                and isinstance(x.value, ast.Call) and isinstance(x.value.func, ast.Name) and x.value.func.id.startswith("_")]
+    if len(helpers3) != 2:
+        raise ValueError("ctab.py: the quoting / charge-property helpers of the V3000 atom line were not found")
+    tp = _find_func(ctab, helpers3[1])
     emit("`_to_property`: compare ops / constants and the f-string", "toPropertyShape", "List String",
          _lstrs([type(n.ops[0]).__name__ + ":" + repr(n.comparators[0].value) for n in ast.walk(tp) if isinstance(n, ast.Compare)]
                 + ["".join(x.value if isinstance(x, ast.Constant) else "{}" for x in n.values) for n in ast.walk(tp) if isinstance(n, ast.JoinedStr)]
                 + [repr(n.value.value) for n in ast.walk(tp) if isinstance(n, ast.Return) and isinstance(n.value, ast.Constant)]))
-    qf = _find_func(ctab, "_quote")
+    qf = _find_func(ctab, helpers3[0])
     def cmp_kinds(func):
         """compare operators with their constant operand, boolean connectives — without the names of locals"""
         out = []
@@ -378,18 +517,23 @@ def _gen_more(base):
                 + ["".join(x.value if isinstance(x, ast.Constant) else "{}" for x in n.values) for n in ast.walk(qf) if isinstance(n, ast.JoinedStr)]))
     # reader literals
     emit("`startswith(...)` literals of the V2000 reader", "r2StartsWith", "List String", _lstrs(_str_calls(r2, "startswith")))
-    emit("`line[k:]` of the V2000 reader (`M  CHGnn8` prefix)", "r2OpenSlices", "List Nat", str(_open_slices(r2, "line")))
+    emit("`line[k:]` of the V2000 reader (`M  CHGnn8` prefix)", "r2OpenSlices", "List Nat", str(_open_slices(r2)))
     emit("`startswith(...)` literals of the V3000 reader", "r3StartsWith", "List String", _lstrs(_str_calls(r3, "startswith")))
-    emit("`line[k:]` of the V3000 reader", "r3OpenSlices", "List Nat", str(_open_slices(r3, "line")))
-    gb = _find_func(ctab, "_get_block_v3000")
+    # names holding the blank-separated columns of a line: assigned from a `.split(...)` call
+    col_vars = {nm for nm, v in _assign_pairs(r3) if isinstance(v, ast.Call) and getattr(v.func, "attr", "") == "split"}
+    emit("`line[k:]` of the V3000 reader", "r3OpenSlices", "List Nat", str(_open_slices(r3, exclude=col_vars)))
+    block_calls = [n for n in _nodes(r3) if isinstance(n, ast.Call) and isinstance(n.func, ast.Name) and len(n.args) == 2
+                   and isinstance(n.args[1], ast.Constant) and isinstance(n.args[1].value, str)]
+    if not block_calls or len({n.func.id for n in block_calls}) != 1:
+        raise ValueError("ctab.py: the block scanner called by the V3000 reader was not found")
+    gb = _find_func(ctab, block_calls[0].func.id)
     emit("`_get_block_v3000`: startswith patterns in source order", "blockMarkers", "List String", _lstrs(_str_calls(gb, "startswith")))
-    blocks = [n.args[1].value for n in ast.walk(r3) if isinstance(n, ast.Call) and isinstance(n.func, ast.Name) and n.func.id == "_get_block_v3000"
-              and isinstance(n.args[1], ast.Constant)]
+    blocks = [n.args[1].value for n in sorted(block_calls, key=lambda n: n.lineno)]
     emit("blocks the V3000 reader asks for, in order", "blocksRead", "List String", _lstrs(blocks))
     # V3000 reader column indices: columns[k] and columns[a:b], columns[k:]
     cols = []
     for n in ast.walk(r3):
-        if isinstance(n, ast.Subscript) and isinstance(n.value, ast.Name) and n.value.id == "columns":
+        if isinstance(n, ast.Subscript) and isinstance(n.value, ast.Name) and n.value.id in col_vars:
             cols.append((n.lineno, n.col_offset, ast.unparse(n.slice)))
     emit("`columns[...]` subscripts of the V3000 reader in source order", "r3Columns", "List String", _lstrs([c for _, _, c in sorted(cols)]))
     emit("string constants compared / looked up by the V3000 reader", "r3Strings", "List String",
@@ -407,13 +551,13 @@ def _gen_more(base):
         if not ls:
             raise ValueError(f"{func.name}: {what} not found")
         return min(ls)
-    coord_guard = line_of(w2, lambda n: isinstance(n, ast.Compare) and isinstance(n.left, ast.Name) and n.left.id == "n_coord_digits", "coordinate guard")
-    elem_cmp = [n for n in ast.walk(w2) if isinstance(n, ast.Compare) and isinstance(n.left, ast.Call) and getattr(n.left.func, "id", "") == "len"
+    coord_guard = _digit_guard(w2, ctab)[1]
+    elem_cmp = [n for n in _nodes(w2) if isinstance(n, ast.Compare) and isinstance(n.left, ast.Call) and getattr(n.left.func, "id", "") == "len"
                 and isinstance(n.comparators[0], ast.Constant)]
     if len(elem_cmp) != 1:
         raise ValueError("_write_structure_to_ctab_v2000: element width guard not found")
     dflt_line = line_of(w2, lambda n: isinstance(n, ast.Subscript) and isinstance(n.value, ast.Name) and n.value.id == "BOND_TYPE_MAPPING_REV", "default bond lookup")
-    atom_line = line_of(w2, lambda n: isinstance(n, ast.Assign) and isinstance(n.targets[0], ast.Name) and n.targets[0].id == "atom_lines", "atom_lines")
+    atom_line = p2["atoms"].lineno
     emit("V2000 writer: the element width guard `len(element) <op> k`", "elemGuard", "String × Nat",
          f"({_lq(type(elem_cmp[0].ops[0]).__name__)}, {elem_cmp[0].comparators[0].value})")
     emit("V2000 writer: coordinate guard < element guard < atom lines < default-bond lookup (source order)", "v2000GuardOrder", "Bool",
@@ -422,16 +566,27 @@ def _gen_more(base):
     mdcls, sdcls, srcls, mfcls = _find_class(sdf, "Metadata"), _find_class(sdf, "SDFile"), _find_class(sdf, "SDRecord"), _find_class(molpy, "MOLFile")
     keycls = [n for n in mdcls.body if isinstance(n, ast.ClassDef) and n.name == "Key"][0]
     hcls = _find_class(hdr, "Header")
-    raises = [("write_structure_to_ctab", _raises(wtop)), ("_write_structure_to_ctab_v2000", _raises(w2)), ("_write_structure_to_ctab_v3000", _raises(w3)),
-              ("read_structure_from_ctab", _raises(rtop)), ("_read_structure_from_ctab_v3000", _raises(r3)), ("_get_block_v3000", _raises(gb)),
+    def sole_private_callee(func, what, tree, pred=lambda g: True):
+        names = [n for n in _private_calls(func) if any(isinstance(g, ast.FunctionDef) and g.name == n and pred(g) for g in tree.body)]
+        if len(names) != 1:
+            raise ValueError(f"{what}: expected exactly one module-private helper to be called, found {names}")
+        return _find_func(tree, names[0])
+    cmv = sole_private_callee(_method(mdcls, "__setitem__"), "Metadata.__setitem__ (value check)", sdf,
+                              lambda g: any(isinstance(n, ast.Call) and getattr(n.func, "attr", "") == "splitlines" for n in ast.walk(g)))
+    addpair = [n for n in _private_calls(_method(mdcls, "deserialize")) if any(isinstance(g, ast.FunctionDef) and g.name == n for g in sdf.body)]
+    if not addpair:
+        raise ValueError("Metadata.deserialize: the helper that stores a key/value pair was not found")
+    keep_c = {w2.name, w3.name, r2.name, r3.name, gb.name}
+    raises = [("write_structure_to_ctab", _raises(wtop, ctab, keep_c)), ("v2000-writer", _raises(w2, ctab, keep_c)), ("v3000-writer", _raises(w3, ctab, keep_c)),
+              ("read_structure_from_ctab", _raises(rtop, ctab, keep_c)), ("v3000-reader", _raises(r3, ctab, keep_c)), ("v3000-block-scan", _raises(gb)),
               ("Key.__post_init__", _raises(_method(keycls, "__post_init__"))), ("Key.deserialize", _raises(_method(keycls, "deserialize"))),
-              ("Metadata.deserialize", _raises(_method(mdcls, "deserialize"))), ("_check_metadata_value", _raises(_find_func(sdf, "_check_metadata_value"))),
-              ("_add_key_value_pair", _raises(_find_func(sdf, "_add_key_value_pair"))),
+              ("Metadata.deserialize", _raises(_method(mdcls, "deserialize"))), ("metadata-value-check", _raises(cmv)),
+              ("metadata-add-pair", _raises(_find_func(sdf, addpair[0]))),
               ("SDRecord.get_structure", _raises(_method(srcls, "get_structure"))), ("SDFile.serialize", _raises(_method(sdcls, "serialize"))),
               ("SDFile.__getitem__", _raises(_method(sdcls, "__getitem__"))), ("SDFile.__setitem__", _raises(_method(sdcls, "__setitem__"))),
               ("SDFile.record", _raises(_method(sdcls, "record"))), ("Header.serialize", _raises(_method(hcls, "serialize"))),
-              ("MOLFile.get_structure", _raises(_method(mfcls, "get_structure"))), ("to_mol", _raises(_find_func(rd, "to_mol"))),
-              ("from_mol", _raises(_find_func(rd, "from_mol")))]
+              ("MOLFile.get_structure", _raises(_method(mfcls, "get_structure"))), ("to_mol", _raises(_find_func(rd, "to_mol"), rd)),
+              ("from_mol", _raises(_find_func(rd, "from_mol"), rd))]
     emit("exception classes raised, per function, in source order", "raisesTable", "List (String × List String)",
          "[" + ", ".join(f"({_lq(n)}, {_lstrs(r)})" for n, r in raises) + "]")
     # defaults
@@ -447,14 +602,49 @@ def _gen_more(base):
     emit("default values of the public entry points (argument, default as source text)", "defaultsTable", "List (String × List (String × String))",
          "[" + ", ".join(f"({_lq(n)}, [" + ", ".join(f"({_lq(a)}, {_lq(d)})" for a, d in ds) + "])" for n, ds in defs) + "]")
     # sdf.py / mol.py / convert.py constants
-    emit("sdf.py `_N_HEADER`, mol.py `N_HEADER`", "nHeader", "Nat × Nat", f"({ast.literal_eval(_find_assign(sdf, '_N_HEADER'))}, {ast.literal_eval(_find_assign(molpy, 'N_HEADER'))})")
-    emit("sdf.py `_RECORD_DELIMITER`", "recordDelimiter", "String", _lq(ast.literal_eval(_find_assign(sdf, "_RECORD_DELIMITER"))))
+    # the function that finds the end of the CTAB in a record / in a MOL file: the private helper called by the public method
+    gcs = sole_private_callee(_method(srcls, "deserialize"), "SDRecord.deserialize (CTAB end)",
+                              ast.Module(body=[g for g in sdf.body if isinstance(g, ast.FunctionDef) and any(
+                                  isinstance(c, ast.Constant) and c.value == "M  END" for c in ast.walk(g))], type_ignores=[]))
+    gcl = sole_private_callee(_method(mfcls, "get_structure"), "MOLFile.get_structure (CTAB lines)", molpy)
+
+    def value_of(tree, node):
+        """an int/str constant, or the literal value of the module constant a name refers to"""
+        if isinstance(node, ast.Constant):
+            return node.value
+        if isinstance(node, ast.Name):
+            return _module_value(tree, node.id)
+        raise ValueError("constant or module constant expected")
+    sdes, sser = _method(sdcls, "deserialize"), _method(sdcls, "serialize")
+    delim_names = {n.args[0].id for n in _nodes(sdes) if isinstance(n, ast.Call) and getattr(n.func, "attr", "") == "startswith" and n.args
+                   and isinstance(n.args[0], ast.Name)} | \
+        {c.id for n in _nodes(sdes) if isinstance(n, ast.Compare) and isinstance(n.ops[0], ast.In) for c in [n.left] if isinstance(c, ast.Name)}
+    delim_names = {d_ for d_ in delim_names if any(isinstance(b, (ast.Assign, ast.AnnAssign)) for b in sdf.body) and
+                   any((isinstance(b, ast.Assign) and getattr(b.targets[0], "id", None) == d_) or
+                       (isinstance(b, ast.AnnAssign) and getattr(b.target, "id", None) == d_) for b in sdf.body)}
+    if len(delim_names) != 1:
+        raise ValueError("SDFile.deserialize: the record delimiter constant was not found")
+    delim_name = delim_names.pop()
+    rng_calls = [n for n in _nodes(gcs) if isinstance(n, ast.Call) and getattr(n.func, "id", "") == "range"]
+    enum_calls = [n for n in _nodes(gcs) if isinstance(n, ast.Call) and getattr(n.func, "id", "") == "enumerate" and len(n.args) == 1 and not n.keywords]
+    ge = [n for n in _nodes(gcs) if isinstance(n, ast.Compare) and isinstance(n.ops[0], ast.GtE) and isinstance(n.left, ast.Name)]
+    if len(rng_calls) == 1:
+        scan = (f"args:{len(rng_calls[0].args)}", value_of(sdf, rng_calls[0].args[0]))
+    elif len(enum_calls) == 1 and len(ge) == 1:
+        scan = ("args:2", value_of(sdf, ge[0].comparators[0]))      # `for i, line in enumerate(lines): if i >= K and …` = range(K, len)
+    else:
+        raise ValueError("CTAB end of a record: neither `range(start, len)` nor `enumerate(lines)` with `i >= start` found")
+    emit("sdf.py: number of header lines (start of the scan for the CTAB end), mol.py `N_HEADER`", "nHeader", "Nat × Nat",
+         f"({scan[1]}, {_module_value(molpy, 'N_HEADER')})")
+    emit("sdf.py: the record delimiter", "recordDelimiter", "String", _lq(_module_value(sdf, delim_name)))
     def regex_src(node):
         if isinstance(node, ast.Call) and getattr(node.func, "attr", "") == "compile" and isinstance(node.args[0], ast.Constant):
             return node.args[0].value
         raise ValueError("re.compile(<literal>) expected")
-    name_re = [n.value for n in keycls.body if isinstance(n, ast.Assign) and n.targets[0].id == "_NAME_INPUT_REGEX"]
-    comp_re = [n.value for n in keycls.body if isinstance(n, ast.Assign) and n.targets[0].id == "_COMPONENT_REGEX"]
+    class_values = [n.value for n in keycls.body if isinstance(n, (ast.Assign, ast.AnnAssign)) and n.value is not None]
+    name_re = [v for v in class_values if isinstance(v, ast.Call) and getattr(v.func, "attr", "") == "compile"]
+    comp_re = [v for v in class_values if isinstance(v, ast.Dict) and v.values and all(
+        isinstance(x, ast.Call) and getattr(x.func, "attr", "") == "compile" for x in v.values)]
     if len(name_re) != 1 or len(comp_re) != 1 or not isinstance(comp_re[0], ast.Dict):
         raise ValueError("sdf.py: key regexes not found")
     emit("`Metadata.Key._NAME_INPUT_REGEX`", "keyNameRegex", "String", _lq(regex_src(name_re[0])))
@@ -476,7 +666,6 @@ def _gen_more(base):
             pat = "".join(x.value if isinstance(x, ast.Constant) else "{" + (x.value.attr if isinstance(x.value, ast.Attribute) else "?") + "}" for x in n.value.values)
             pieces.append((n.lineno, pat))
     emit("`Key.serialize`: the pieces appended, in order", "keySerializePieces", "List String", _lstrs([t for _, t in sorted(pieces)]))
-    cmv = _find_func(sdf, "_check_metadata_value")
     emit("`_check_metadata_value`: startswith / split literals, then the tests (operator:constant; `call:` = a method result is tested)", "valueChecks", "List String",
          _lstrs(_str_calls(cmv, "startswith") + _str_calls(cmv, "split")
                 + [("call:" + n.test.func.attr) if isinstance(n.test, ast.Call) and isinstance(n.test.func, ast.Attribute) else
@@ -486,40 +675,38 @@ def _gen_more(base):
     mdes = _method(mdcls, "deserialize")
     emit("`Metadata.deserialize`: startswith literal and the join separator", "mdDeserializeStrings", "List String",
          _lstrs(_str_calls(mdes, "startswith") + sorted({n.value for n in ast.walk(mdes) if isinstance(n, ast.Constant) and n.value == "\n"})))
-    gcs = _find_func(sdf, "_get_ctab_stop")
-    rng_calls = [n for n in ast.walk(gcs) if isinstance(n, ast.Call) and getattr(n.func, "id", "") == "range"]
-    if len(rng_calls) != 1:
-        raise ValueError("_get_ctab_stop: range(...) not found")
-    a0 = rng_calls[0].args[0]
     emit("`_get_ctab_stop`: number of range arguments (2 = forward scan), its start, the startswith literal, `return i + k`", "ctabStopShape", "List String",
-         _lstrs([f"args:{len(rng_calls[0].args)}", "start:" + (a0.id if isinstance(a0, ast.Name) else ast.unparse(a0))] + _str_calls(gcs, "startswith")
+         _lstrs([scan[0], "start:" + repr(scan[1])] + _str_calls(gcs, "startswith")
                 + ["ret:+" + repr(n.value.right.value) for n in ast.walk(gcs) if isinstance(n, ast.Return) and isinstance(n.value, ast.BinOp)
                    and isinstance(n.value.op, ast.Add) and isinstance(n.value.right, ast.Constant)]))
-    gcl = _find_func(molpy, "_get_ctab_lines")
-    fors = [n.iter for n in ast.walk(gcl) if isinstance(n, ast.For)]
+    fors = [n.iter for n in _nodes(gcl) if isinstance(n, ast.For)]
     if len(fors) != 1:
         raise ValueError("_get_ctab_lines: loop not found")
     it = fors[0]
     if isinstance(it, ast.Call) and getattr(it.func, "id", "") == "enumerate" and isinstance(it.args[0], ast.Subscript) \
-            and isinstance(it.args[0].slice, ast.Slice) and isinstance(it.args[0].slice.lower, ast.Name):
-        src = "enumerate-from:" + it.args[0].slice.lower.id + "/start=" + ",".join(ast.unparse(k.value) for k in it.keywords if k.arg == "start")
+            and isinstance(it.args[0].slice, ast.Slice) and it.args[0].slice.upper is None \
+            and [value_of(molpy, k.value) for k in it.keywords if k.arg == "start"] == [value_of(molpy, it.args[0].slice.lower)]:
+        src = "forward-from:" + repr(value_of(molpy, it.args[0].slice.lower))        # enumerate(lines[K:], start=K)
+    elif isinstance(it, ast.Call) and getattr(it.func, "id", "") == "range" and len(it.args) == 2:
+        src = "forward-from:" + repr(value_of(molpy, it.args[0]))                      # range(K, len(lines))
+    elif isinstance(it, ast.Call) and getattr(it.func, "id", "") == "enumerate":
+        src = "forward-from:0"
     else:
-        src = "enumerate-all" if isinstance(it, ast.Call) and getattr(it.func, "id", "") == "enumerate" else "other"
+        src = "other"
     emit("mol.py `_get_ctab_lines`: where the scan for `M  END` starts, the startswith literal", "ctabLinesShape", "List String",
          _lstrs([src] + _str_calls(gcl, "startswith")))
-    sdes = _method(sdcls, "deserialize")
     def delim_tests(func):
         out = []
-        for n in ast.walk(func):
-            if isinstance(n, ast.Call) and getattr(n.func, "attr", "") in ("startswith", "endswith") and n.args and isinstance(n.args[0], ast.Name):
-                out.append(n.func.attr + ":" + n.args[0].id)
-            elif isinstance(n, ast.Compare) and isinstance(n.ops[0], (ast.In, ast.Eq)) and isinstance(n.left, ast.Name) and n.left.id == "_RECORD_DELIMITER":
-                out.append(type(n.ops[0]).__name__ + ":_RECORD_DELIMITER")
+        for n in _nodes(func):
+            if isinstance(n, ast.Call) and getattr(n.func, "attr", "") in ("startswith", "endswith") and n.args and isinstance(n.args[0], ast.Name) \
+                    and n.args[0].id == delim_name:
+                out.append(n.func.attr + ":delimiter")
+            elif isinstance(n, ast.Compare) and isinstance(n.ops[0], (ast.In, ast.Eq)) and isinstance(n.left, ast.Name) and n.left.id == delim_name:
+                out.append(type(n.ops[0]).__name__ + ":delimiter")
         return out
     emit("`SDFile.deserialize`: how a delimiter line is recognised", "delimiterTest", "List String", _lstrs(delim_tests(sdes)))
-    sser = _method(sdcls, "serialize")
     emit("`SDFile.serialize`: the delimiter-line check", "delimiterCheck", "List String", _lstrs(delim_tests(sser)))
-    goc = _find_func(conv, "_get_or_create_record")
+    goc = sole_private_callee(_find_func(conv, "set_structure"), "convert.set_structure", conv)
     emit("convert.py `_get_or_create_record`: the invented record name, and the membership guard before a record is created", "convertShape", "List String",
          _lstrs([n.value.value for n in ast.walk(goc) if isinstance(n, ast.Assign) and isinstance(n.value, ast.Constant) and isinstance(n.value.value, str)]
                 + [type(n.test.ops[0]).__name__ for n in ast.walk(goc) if isinstance(n, ast.If) and isinstance(n.test, ast.Compare)
@@ -594,7 +781,14 @@ def gen_lean():
                 and r.key.id != r.value.id):
             raise ValueError(f"{nm} is not the swapped dict comprehension")
     n_chg = intlit(_find_assign(ctab, "N_CHARGES_PER_LINE"))
-    f = _find_func(ctab, "_is_v2000_compatible")
+    wtop_, rtop_ = _find_func(ctab, "write_structure_to_ctab"), _find_func(ctab, "read_structure_from_ctab")
+    # the size test: the private function called in the dispatcher whose single return is `a < K and b < K`
+    cands = [g for g in ctab.body if isinstance(g, ast.FunctionDef) and g.name in _private_calls(wtop_)
+             and len([n for n in ast.walk(g) if isinstance(n, ast.Return)]) == 1
+             and isinstance([n for n in ast.walk(g) if isinstance(n, ast.Return)][0].value, ast.BoolOp)]
+    if len(cands) != 1:
+        raise ValueError("write_structure_to_ctab: the V2000 size test (`a < K and b < K`) was not found")
+    f = cands[0]
     ret = [n for n in ast.walk(f) if isinstance(n, ast.Return)]
     if len(ret) != 1 or not isinstance(ret[0].value, ast.BoolOp) or not isinstance(ret[0].value.op, ast.And):
         raise ValueError("_is_v2000_compatible: expected `a < K and b < K`")
@@ -611,23 +805,27 @@ def gen_lean():
     if len(excl) != 2:
         raise ValueError("_is_v2000_compatible: both arguments must be bounded")
     # coordinate digit limit in both writers
-    digit_limits = []
-    for fn in ("_write_structure_to_ctab_v2000", "_write_structure_to_ctab_v3000"):
-        g = _find_func(ctab, fn)
-        lims = [intlit(n.comparators[0]) for n in ast.walk(g)
-                if isinstance(n, ast.Compare) and isinstance(n.left, ast.Name) and n.left.id == "n_coord_digits"
-                and isinstance(n.ops[0], ast.Gt)]
-        if len(lims) != 1:
-            raise ValueError(f"{fn}: coordinate digit guard not found")
-        digit_limits.append(lims[0])
-    rdr = _find_func(ctab, "_read_structure_from_ctab_v2000")
-    slices = _slices_of(rdr, "line")
-    counts_slices = _slices_of(_find_func(ctab, "_get_counts_v2000"), "counts_line")
-    version_slice = _slices_of(_find_func(ctab, "_get_version"), "counts_line")
-    wr = _find_func(ctab, "_write_structure_to_ctab_v2000")
-    atom_w = _line_template_widths(wr, "atom_lines")
-    bond_w = _line_template_widths(wr, "bond_lines")
-    counts_w = _line_template_widths(wr, "counts_line")
+    w2_, w3_ = _find_func(ctab, _case_callee(wtop_, "V2000")), _find_func(ctab, _case_callee(wtop_, "V3000"))
+    digit_limits = [_digit_guard(w2_, ctab)[0], _digit_guard(w3_, ctab)[0]]
+    rdr = _find_func(ctab, _case_callee(rtop_, "V2000"))
+    slices = _slices_of(rdr)
+    # the counts parser: the call whose result is unpacked into two names; the version getter: the subject of the `match`
+    counts_fn = [n.value.func.id for n in _nodes(rdr) if isinstance(n, ast.Assign) and isinstance(n.targets[0], ast.Tuple)
+                 and isinstance(n.value, ast.Call) and isinstance(n.value.func, ast.Name)]
+    version_fn = [n.subject.func.id for n in _nodes(rtop_) if isinstance(n, ast.Match) and isinstance(n.subject, ast.Call)
+                  and isinstance(n.subject.func, ast.Name)]
+    if len(counts_fn) != 1 or len(version_fn) != 1:
+        raise ValueError("ctab.py: counts parser / version getter not found")
+    counts_slices = _slices_of(_find_func(ctab, counts_fn[0]))
+    version_slice = _slices_of(_find_func(ctab, version_fn[0]))
+    parts2 = _writer_parts(w2_, "V2000")
+
+    def widths_of(expr):
+        out_ = []
+        for parts_, rep_ in _flatten_fstring(expr, parts2["env"]):
+            out_ += _format_widths(parts_) * rep_
+        return out_
+    atom_w, bond_w, counts_w = widths_of(parts2["atoms"]), widths_of(parts2["bonds"]), widths_of(parts2["counts"])
 
     def rdname(node):
         name, chem = _attr_name(node, "BondType")
@@ -635,20 +833,20 @@ def gen_lean():
             raise ValueError("expected Chem.BondType.<member>")
         return name
 
-    d = _find_assign(rd, "_BIOTITE_TO_RDKIT_BOND_TYPE")
+    d = _dicts_of(rd, "bt", "rd")
     to_rd = [(bt(k), rdname(v)) for k, v in zip(d.keys, d.values)]
-    d = _find_assign(rd, "_RDKIT_TO_BIOTITE_BOND_TYPE")
+    d = _dicts_of(rd, "rd", "bt")
     from_rd = [(rdname(k), bt(v)) for k, v in zip(d.keys, d.values)]
-    d = _find_assign(rd, "_KEKULIZED_TO_AROMATIC_BOND_TYPE")
+    d = _dicts_of(rd, "bt", "bt")
     kek = [(bt(k), bt(v)) for k, v in zip(d.keys, d.values)]
 
     # header.py: slices of the second header line, widths/precisions of the writer's f-string, date format, name limit
     hdr = ast.parse(open(os.path.join(base, "structure/io/mol/header.py")).read())
     hde = _find_func(hdr, "deserialize")
     hs_raw = []
-    for node in ast.walk(hde):
+    for node in _nodes(hde):
         if isinstance(node, ast.Subscript) and isinstance(node.slice, ast.Slice) and isinstance(node.value, ast.Subscript) \
-                and isinstance(node.value.value, ast.Name) and node.value.value.id == "lines" \
+                and isinstance(node.value.value, ast.Name) \
                 and isinstance(node.value.slice, ast.Constant) and node.value.slice.value == 1:
             lo, hi = node.slice.lower, node.slice.upper
             if not (isinstance(lo, ast.Constant) and isinstance(hi, ast.Constant)):
@@ -672,8 +870,15 @@ def gen_lean():
             header_fields.append((int(mm.group(2)), int(mm.group(3))))
         elif not (isinstance(part, ast.Constant) and part.value == "\n"):
             raise ValueError("header.py: unexpected literal in the fixed-column line")
-    date_format = ast.literal_eval(_find_assign(hdr, "_DATE_FORMAT"))
-    name_limits = [intlit(n.comparators[0]) for n in ast.walk(hse) if isinstance(n, ast.Compare) and isinstance(n.ops[0], ast.Gt)
+    module_names = {(b.targets[0] if isinstance(b, ast.Assign) else b.target).id for b in hdr.body
+                    if isinstance(b, (ast.Assign, ast.AnnAssign)) and isinstance(b.targets[0] if isinstance(b, ast.Assign) else b.target, ast.Name)}
+    fmt_names = {n.args[-1].id for f_ in (hde, hse) for n in _nodes(f_) if isinstance(n, ast.Call)
+                 and getattr(n.func, "attr", "") in ("strptime", "strftime") and n.args and isinstance(n.args[-1], ast.Name)
+                 and n.args[-1].id in module_names}
+    if len(fmt_names) != 1:
+        raise ValueError("header.py: the date format constant used by strptime/strftime was not found")
+    date_format = _module_value(hdr, fmt_names.pop())
+    name_limits = [intlit(n.comparators[0]) for n in _nodes(hse) if isinstance(n, ast.Compare) and isinstance(n.ops[0], ast.Gt)
                    and isinstance(n.left, ast.Call) and getattr(n.left.func, "id", "") == "len"]
     if len(name_limits) != 1:
         raise ValueError("header.py: molecule name length guard not found")
@@ -1511,12 +1716,13 @@ def run_impl(case):
                     sd = SDFile.deserialize(_text(f[1:]))
                     fs = []
                     for name in sd.keys():
-                        rec = sd._records[name]
-                        rec = SDRecord.deserialize(rec) if isinstance(rec, str) else rec
+                        rec = sd[name]                       # public API only: an SDRecord whose parts are still text
+                        all_lines = rec.serialize().splitlines()
+                        n_ctab = len(rec.ctab.splitlines())
                         fs.append("N" + name)
-                        fs += ["H" + l for l in rec._header.splitlines()]
-                        fs += ["C" + l for l in rec._ctab.splitlines()]
-                        fs += ["M" + l for l in rec._metadata.splitlines()]
+                        fs += ["H" + l for l in all_lines[:3]]
+                        fs += ["C" + l for l in all_lines[3:3 + n_ctab]]
+                        fs += ["M" + l for l in all_lines[3 + n_ctab:]]
                     out.append("ok " + "\t".join(fs))
                 elif f[0] == "SE":
                     k = f.index("#OPS")
